@@ -40,6 +40,9 @@ def run(ctx):
     # monotone fills of every size 100..315 (step <= 7, both directions) followed by a drain from the thin side and then
     # the other: inner nodes at every fill grade (exactly full donors, minimal siblings) meet steal / merge / cascade
     drive_tv(ctx, "tree", "Trace_Tree", "tv_Id320.cfg", "tree", variant="sweep:320", runs=ctx.pick(62, 124), ops=ctx.pick(80, 300), timeout=3000)
+    # steered by the structure: a chosen child (every index 0..15 over the runs) of an exactly full inner node is made to
+    # split - with the root as that node and with an inner node below the root (cascading splits at every alignment)
+    drive_tv(ctx, "tree", "Trace_Tree", "tv_Id1300.cfg", "tree", variant="cascade:1300", runs=ctx.pick(16, 64), ops=ctx.pick(10, 100), timeout=3000)
     drive_tv(ctx, "tree", "Trace_Tree", "tv_Coarse40.cfg", "tree", variant="coarse:40", runs=ctx.pick(5, 30), ops=ctx.pick(250, 500))
     if not ctx.quick():
         drive_tv(ctx, "tree", "Trace_Tree", "tv_Id1300.cfg", "tree", variant="mix:1300", runs=30, ops=4000, timeout=3000)
